@@ -402,117 +402,152 @@ package lisp
 //@ functype LBuiltin
 //@   requires arg0 != nil && arg0.Runtime != nil && arg0.Runtime.Stack != nil
 //@   ensures  BAL(arg0)
+//@   ensures  preserved(LEnv.evalCtx)
 //@   ensures-on-panic BAL(arg0)
+//@   ensures-on-panic preserved(LEnv.evalCtx)
 
 //@ pred PUSHED(env) = rtOK(env) && env.Runtime == old(env.Runtime) && env.Runtime.Stack == old(env.Runtime.Stack) && len(env.Runtime.Stack.Frames) == old(len(env.Runtime.Stack.Frames)) + 1 && env.Runtime.evalNesting == old(env.Runtime.evalNesting) && len(env.Runtime.conditionStack) == old(len(env.Runtime.conditionStack)) && env.Runtime.evalDepth == old(env.Runtime.evalDepth)
 
 //@ func (*LEnv).eval
 //@   requires rtOK(env)
 //@   loop 1 (_) invariant rtOK(env) && env.Runtime == old(env.Runtime) && env.Runtime.Stack == old(env.Runtime.Stack) && len(env.Runtime.Stack.Frames) == old(len(env.Runtime.Stack.Frames)) && env.Runtime.evalNesting == old(env.Runtime.evalNesting) + 1 && len(env.Runtime.conditionStack) == old(len(env.Runtime.conditionStack)) && env.Runtime.evalDepth == old(env.Runtime.evalDepth)
+//@   loop 1 (_) invariant [ctx] preserved(LEnv.evalCtx)
 //@   ensures  [balanced] BAL(env)
+//@   ensures  [evalctx-restored] preserved(LEnv.evalCtx)
 //@   nopanic
 //@   property C05 C04
 
 //@ func (*LEnv).evalSExpr
 //@   requires rtOK(env)
 //@   ensures  [balanced] BAL(env)
+//@   ensures  [evalctx-restored] preserved(LEnv.evalCtx)
 //@   ensures-on-panic [balanced-on-panic] BAL(env)
+//@   ensures-on-panic [evalctx-restored-on-panic] preserved(LEnv.evalCtx)
 //@   property C05
 
 //@ func (*LEnv).evalSExprCells
 //@   requires rtOK(env)
 //@   loop 1 (rangeindex) invariant -1 <= rangeindex && rangeindex < old(len(s.Cells)) - 1
+//@   loop 1 (rangeindex) invariant [ctx] preserved(LEnv.evalCtx)
 //@   loop 1 (rangeindex) invariant KEEP(env) && env.Runtime.evalDepth == old(env.Runtime.evalDepth)
 //@   ensures  [balanced] BAL(env)
+//@   ensures  [evalctx-restored] preserved(LEnv.evalCtx)
 //@   ensures  [loc-restored] env.loc == old(env.loc)
 //@   ensures-on-panic [balanced-on-panic] BAL(env)
+//@   ensures-on-panic [evalctx-restored-on-panic] preserved(LEnv.evalCtx)
 //@   ensures-on-panic [loc-restored-on-panic] env.loc == old(env.loc)
 //@   property C05 C18
 
 //@ func (*LEnv).funCall
 //@   requires rtOK(env)
 //@   loop 1 (_) invariant PUSHED(env)
+//@   loop 1 (_) invariant [ctx] preserved(LEnv.evalCtx)
 //@   ensures  [balanced] BAL(env)
+//@   ensures  [evalctx-restored] preserved(LEnv.evalCtx)
 //@   ensures-on-panic [balanced-on-panic] BAL(env)
+//@   ensures-on-panic [evalctx-restored-on-panic] preserved(LEnv.evalCtx)
 //@   property C05 C02
 
 //@ func (*LEnv).specialOpCall
 //@   requires rtOK(env)
 //@   loop 1 (_) invariant PUSHED(env)
+//@   loop 1 (_) invariant [ctx] preserved(LEnv.evalCtx)
 //@   ensures  [balanced] BAL(env)
+//@   ensures  [evalctx-restored] preserved(LEnv.evalCtx)
 //@   ensures-on-panic [balanced-on-panic] BAL(env)
+//@   ensures-on-panic [evalctx-restored-on-panic] preserved(LEnv.evalCtx)
 //@   property C05 C02
 
 //@ func (*LEnv).macroCall
 //@   requires rtOK(env)
 //@   ensures  [balanced] BAL(env)
+//@   ensures  [evalctx-restored] preserved(LEnv.evalCtx)
 //@   ensures-on-panic [balanced-on-panic] BAL(env)
+//@   ensures-on-panic [evalctx-restored-on-panic] preserved(LEnv.evalCtx)
 //@   property C05 C02
 
 //@ func (*LEnv).call
 //@   requires rtOK(env)
 //@   assume-at eval [single-runtime-per-env-tree] arg0 != nil && arg0.Runtime == env.Runtime
 //@   loop 1 (_) invariant [rt] rtOK(env) && env.Runtime == old(env.Runtime) && env.Runtime.Stack == old(env.Runtime.Stack)
+//@   loop 1 (_) invariant [ctx] preserved(LEnv.evalCtx)
 //@   loop 1 (_) invariant [frames] len(env.Runtime.Stack.Frames) == old(len(env.Runtime.Stack.Frames))
 //@   loop 1 (_) invariant [nesting] env.Runtime.evalNesting == old(env.Runtime.evalNesting)
 //@   loop 1 (_) invariant [conds] len(env.Runtime.conditionStack) == old(len(env.Runtime.conditionStack))
 //@   loop 1 (_) invariant [depth] env.Runtime.evalDepth == old(env.Runtime.evalDepth)
 //@   ensures  [balanced] BAL(env)
-//@   ensures  [evalctx-restored] env.evalCtx == old(env.evalCtx)
+//@   ensures  [evalctx-restored] preserved(LEnv.evalCtx)
 //@   ensures-on-panic [balanced-on-panic] BAL(env)
-//@   ensures-on-panic [evalctx-restored-on-panic] env.evalCtx == old(env.evalCtx)
+//@   ensures-on-panic [evalctx-restored-on-panic] preserved(LEnv.evalCtx)
 //@   property C05
 
-//@ frame writers(LEnv.evalCtx) subset { } property C05
+//@ frame writers(LEnv.evalCtx) subset { (*LEnv).call, WithContext$1, newEnvN } property C05
 
 //@ func (*LEnv).load
 //@   requires rtOK(env)
 //@   loop 1 (rangeindex) invariant -1 <= rangeindex && rangeindex < len(exprs)
+//@   loop 1 (rangeindex) invariant [ctx] preserved(LEnv.evalCtx)
 //@   loop 1 (rangeindex) invariant KEEP(env) && env.Runtime.evalDepth == old(env.Runtime.evalDepth) + 1
 //@   ensures  [balanced] BAL(env)
+//@   ensures  [evalctx-restored] preserved(LEnv.evalCtx)
 //@   ensures  [package-restored] env.Runtime.Package == old(env.Runtime.Package)
 //@   ensures-on-panic [balanced-on-panic] BAL(env)
+//@   ensures-on-panic [evalctx-restored-on-panic] preserved(LEnv.evalCtx)
 //@   ensures-on-panic [package-restored-on-panic] env.Runtime.Package == old(env.Runtime.Package)
 //@   property C05 C04 C08
 
 //@ func (*LEnv).Eval
 //@   requires rtOK(env)
 //@   ensures  [balanced] BAL(env)
+//@   ensures  [evalctx-restored] preserved(LEnv.evalCtx)
 //@   ensures-on-panic [balanced-on-panic] BAL(env)
+//@   ensures-on-panic [evalctx-restored-on-panic] preserved(LEnv.evalCtx)
 //@   property C05 C04
 
 //@ func (*LEnv).EvalContext
 //@   requires rtOK(env)
 //@   ensures  [balanced] BAL(env)
+//@   ensures  [evalctx-restored] preserved(LEnv.evalCtx)
 //@   ensures-on-panic [balanced-on-panic] BAL(env)
+//@   ensures-on-panic [evalctx-restored-on-panic] preserved(LEnv.evalCtx)
 //@   property C05 C04
 
 //@ func (*LEnv).EvalSExpr
 //@   requires rtOK(env)
 //@   ensures  [balanced] BAL(env)
+//@   ensures  [evalctx-restored] preserved(LEnv.evalCtx)
 //@   ensures-on-panic [balanced-on-panic] BAL(env)
+//@   ensures-on-panic [evalctx-restored-on-panic] preserved(LEnv.evalCtx)
 //@   property C05
 
 //@ func (*LEnv).FunCall
 //@   requires rtOK(env)
 //@   ensures  [balanced] BAL(env)
+//@   ensures  [evalctx-restored] preserved(LEnv.evalCtx)
 //@   ensures-on-panic [balanced-on-panic] BAL(env)
+//@   ensures-on-panic [evalctx-restored-on-panic] preserved(LEnv.evalCtx)
 //@   property C05
 
 //@ func (*LEnv).FunCallContext
 //@   requires rtOK(env)
 //@   ensures  [balanced] BAL(env)
+//@   ensures  [evalctx-restored] preserved(LEnv.evalCtx)
 //@   ensures-on-panic [balanced-on-panic] BAL(env)
+//@   ensures-on-panic [evalctx-restored-on-panic] preserved(LEnv.evalCtx)
 //@   property C05
 
 //@ func (*LEnv).MacroCall
 //@   requires rtOK(env)
 //@   ensures  [balanced] BAL(env)
+//@   ensures  [evalctx-restored] preserved(LEnv.evalCtx)
 //@   ensures-on-panic [balanced-on-panic] BAL(env)
+//@   ensures-on-panic [evalctx-restored-on-panic] preserved(LEnv.evalCtx)
 //@   property C05
 
 //@ func (*LEnv).SpecialOpCall
 //@   requires rtOK(env)
 //@   ensures  [balanced] BAL(env)
+//@   ensures  [evalctx-restored] preserved(LEnv.evalCtx)
 //@   ensures-on-panic [balanced-on-panic] BAL(env)
+//@   ensures-on-panic [evalctx-restored-on-panic] preserved(LEnv.evalCtx)
 //@   property C05
